@@ -704,7 +704,7 @@ def judgeLine2 (j : JSt) (lineNo : Nat) (opLine obsLine : String) : JSt :=
           | some m => if m.origin = "C13" ∨ m.origin = "C10" then "C10" else "C14"
           | none => "C14"
         if x == y then j else j.reject prop lineNo (if prop = "C14" then "the graph after deploy_to() differs from the graph after the same direct calls" else "the same query on the original and on the clone gives different graphs")
-      | _, _ => j.reject "C14" lineNo "one of the two graphs could not be observed"
+      | _, _ => j
     | _, _ => j
   | ["script", a, t] =>
     match parseHandle a, parseTextTok t with
@@ -755,8 +755,11 @@ def judgeLine2 (j : JSt) (lineNo : Nat) (opLine obsLine : String) : JSt :=
     | some a, some b =>
       match j.lastSnap.find? (·.1 = a), j.lastSnap.find? (·.1 = b) with
       | some (_, x), some (_, y) =>
+        let bothJudged := match j.getMon a, j.getMon b with
+          | some ma, some mb => ma.judged && mb.judged
+          | _, _ => false
         if x = y then { j with snapPairs := j.snapPairs + 1 }
-        else if ¬ (x.startsWith "ok" ∧ y.startsWith "ok") then j
+        else if !(x.startsWith "ok" && y.startsWith "ok" && bothJudged) then j
         else j.reject "C10" lineNo "the internal state of the clone differs from the original's (vertex slots, member lists, counters or allocator position)"
       | _, _ => j
     | _, _ => j
